@@ -384,6 +384,44 @@ def listing_rules(facts, rep, w, rule="R09.4"):
                        for x in walk(recvn))
         n += 1
         rep.ob(rule, b.id, "all layers are visited", full, "", s.line)
+    # ... and the loop is left only when the layers are exhausted or with an error: a `break` under some condition (first
+    # layer found, a shadowed file met) cuts the layers below out of the union
+    for cb, s, tr, recv in any_layer:
+        cfg = tr.cfg
+        heads = []
+        for blk in cb.calls():
+            if short(blk.term.callee() or "") == "Iterator::next" and blk.idx != s.bb and cfg.dominates(blk.idx, s.bb) and \
+                    cfg.reaches(s.bb, blk.idx) and blk.term.args:
+                it = norm(tr.operand(blk.term.args[0]))
+                if any(x[0] == "field" and x[2] == "layers" for x in walk(it)) or \
+                        any(x[0] == "call" and isinstance(x[1], str) and sname(x[1]) in ("layers", "read_layers") for x in walk(it)):
+                    heads.append(blk.idx)
+        for h in heads[:1]:
+            bad = []
+            cases = ov.inter.ret_cases(cb)
+            for (es, ed, label) in cfg.loop_exit_edges(h):
+                t = cb.blocks[es].term
+                why = None
+                if t.kind == "switch":
+                    d = tr.operand(t.discr)
+                    dn = d[1] if d[0] == "discr" else d
+                    while dn[0] in ("okval", "errval"):
+                        dn = dn[1]
+                    if dn[0] == "call" and short(dn[1]) == "Iterator::next" and len(dn) > 3 and dn[3] == (cb.id, h):
+                        continue        # exhaustion
+                # an exit that can only end in an Err return is the error path of a `?`
+                after = cfg.reachable_from(ed)
+                if not any(x in after for x in cfg.return_blocks()):
+                    continue        # `otherwise -> unreachable` of an exhaustive match
+                pols = {ov.inter.case_polarity(ct) for ct, _, bb in cases if bb in after}
+                if pols and pols <= {"err"}:
+                    continue
+                bad.append((es, ed))
+            n += 1
+            rep.ob(rule, b.id, "the layer loop ends only by exhaustion or with an error", not bad, "" if not bad else
+                   "the loop over the layers is left early on a non-error path (bb%s): layers below that point are not merged into the "
+                   "listing, so entries that exist are not listed (and remove_dir's emptiness test does not see them)" %
+                   ", bb".join(str(x[0]) for x in bad), cb.blocks[bad[0][0]].term.line if bad else s.line)
     # a layer below the serving one may hold a *file* of that name (shadowed by the directory above it): there must be a
     # type test of the layer's entry that lets the merge skip it
     if any_layer:
